@@ -105,6 +105,13 @@ type SnapPayload struct {
 	Unc       int64      `json:"unc"`
 	N         int        `json:"n"`
 	Damaged   []string   `json:"damaged"` // files the driver damaged on purpose (size not comparable)
+	Lost      []string   `json:"lost"`    // files the driver removed behind the cache's back
+	Used      []string   `json:"used"`    // keys the operation just before this snapshot hit or stored
+}
+
+// SnapOpts are the optional parts of a snapshot.
+type SnapOpts struct {
+	Damaged, Lost, Used []string
 }
 
 // Snapshot injects a Snapshot event for c into the event stream. The caller
@@ -116,13 +123,25 @@ func Snapshot(c disk.Cache, quiescent bool, withDir bool) (*disk.VerifSnap, []Di
 
 // SnapshotD is Snapshot with a list of files the driver damaged on purpose.
 func SnapshotD(c disk.Cache, quiescent bool, withDir bool, damaged []string) (*disk.VerifSnap, []DirEntry, error) {
+	return SnapshotO(c, quiescent, withDir, SnapOpts{Damaged: damaged})
+}
+
+// SnapshotO is Snapshot with all options.
+func SnapshotO(c disk.Cache, quiescent bool, withDir bool, o SnapOpts) (*disk.VerifSnap, []DirEntry, error) {
+	damaged := o.Damaged
 	s := disk.VerifSnapshot(c)
 	if s == nil {
 		return nil, nil, fmt.Errorf("not a disk cache")
 	}
-	p := SnapPayload{Quiescent: quiescent, HasDir: withDir, Cur: s.Cur, Resv: s.Resv, Unc: s.Unc, N: s.N, Keys: []string{}, Dir: []DirEntry{}, Damaged: []string{}}
+	p := SnapPayload{Quiescent: quiescent, HasDir: withDir, Cur: s.Cur, Resv: s.Resv, Unc: s.Unc, N: s.N, Keys: []string{}, Dir: []DirEntry{}, Damaged: []string{}, Lost: []string{}, Used: []string{}}
 	if damaged != nil {
 		p.Damaged = damaged
+	}
+	if o.Lost != nil {
+		p.Lost = o.Lost
+	}
+	if o.Used != nil {
+		p.Used = o.Used
 	}
 	for _, e := range s.Entries {
 		p.Keys = append(p.Keys, e.Key)
@@ -199,7 +218,7 @@ func Line(e *disk.VerifEvent) (map[string]any, bool) {
 		"hastot": e.HasTot, "tot": int64(0), "victims": vict, "path": "", "op": e.Op,
 		"cur": c(e.Cur), "resv": c(e.Resv), "unc": c(e.Unc), "n": e.N, "ll": e.LL,
 		"max": c(e.Max), "hl": c(e.HL),
-		"keys": []string{}, "quiescent": false, "hasdir": false, "dir": []DirEntry{}, "track": false, "damaged": []string{},
+		"keys": []string{}, "quiescent": false, "hasdir": false, "dir": []DirEntry{}, "track": false, "damaged": []string{}, "lost": []string{}, "used": []string{},
 	}
 	if e.HasTot {
 		t, ok := clamp(e.Tot)
@@ -210,6 +229,10 @@ func Line(e *disk.VerifEvent) (map[string]any, bool) {
 	}
 	if e.Path != "" {
 		m["path"] = RelPath(e.Path)
+	}
+	if e.Ev == "FileLost" {
+		m["path"] = RelPath(e.Op)
+		m["op"] = ""
 	}
 	if e.Ev == "Snapshot" {
 		var p SnapPayload
@@ -225,12 +248,18 @@ func Line(e *disk.VerifEvent) (map[string]any, bool) {
 			if p.Damaged != nil {
 				m["damaged"] = p.Damaged
 			}
+			if p.Lost != nil {
+				m["lost"] = p.Lost
+			}
+			if p.Used != nil {
+				m["used"] = p.Used
+			}
 		}
 		m["op"] = ""
 	}
 	switch e.Ev {
 	case "Add", "Get", "Reserve", "Unreserve", "Remove", "Queue", "EvictStart", "EvictDone", "FileCreate",
-		"FileComplete", "FileRemove", "ReqBegin", "ReqEnd", "Snapshot":
+		"FileComplete", "FileRemove", "FileLost", "ReqBegin", "ReqEnd", "Snapshot":
 	default:
 		m["ev"] = "Note"
 	}
